@@ -2,9 +2,9 @@ SPECIFICATION ASpec
 CONSTANTS
   Accts = {1, 2}
   Origins = {"api", "legacy"}
-  Classes = {"short", "b32", "long"}
+  Classes = {"b32", "long"}
   Pres = {"right", "wrong"}
-  NewKinds = {"fresh", "same", "invalid"}
+  NewKinds = {"fresh", "invalid"}
   MaxOps = 4
   EmitOn = TRUE
 INVARIANT Export
